@@ -253,8 +253,14 @@ def child_main(job_path):
         if ctext(o) == out["ctext"]:
             out["same_text"] = out.get("same_text", 0) + 1      # the same C program: nothing further to compare
             return
-        B = AM(o.dctx)
-        r = bisim.bisim(A, B, sorted(set(reps) | set(x for x in bisim.reps_for([B]) if x < 256)), slack=False, max_states=job["cap"])
+        try:
+            B = AM(o.dctx)
+            r = bisim.bisim(A, B, sorted(set(reps) | set(x for x in bisim.reps_for([B]) if x < 256)), slack=False, max_states=job["cap"])
+        except (UB, Spin):
+            raise
+        except Exception as e:      # noqa: BLE001 - e.g. the recompiled machine refers to an output of ANOTHER program
+            out["diffs"].append(dict(scenario=tag, what="the recompiled machine cannot be executed like the first one: %s: %s" % (type(e).__name__, str(e)[:120])))
+            return
         out["states"] += r.states
         out["trans"] += r.trans
         if r.status == "diff":
